@@ -4,7 +4,7 @@ from ..gen import KEY_POOL, PREFIX, hx, rng_for
 
 ENGINES = ["memkv", "badger", "tikv"]
 
-EXTRA_PROP_MODULES = [("KB.Props.C07Race", "KB.C07Race"), ("KB.Props.C07Par", "KB.C07Par"), ("KB.Props.OrderC07", "KB.OrderC07")]
+EXTRA_PROP_MODULES = [("KB.Props.C07Race", "KB.C07Race"), ("KB.Props.C07Par", "KB.C07Par"), ("KB.Props.C07Ranges", "KB.C07Ranges"), ("KB.Props.OrderC07", "KB.OrderC07")]
 
 
 def probe_reads(keys, revs):
